@@ -208,6 +208,14 @@ def patch():
         return r
     TaskPool.merge_flows = n_mf
 
+    from cylc.flow.workflow_db_mgr import WorkflowDatabaseManager
+    o_abs = WorkflowDatabaseManager.put_insert_abs_output
+
+    def n_abs(self, cycle, name, output):
+        ev("abs", key=[int(cycle), name, output])
+        return o_abs(self, cycle, name, output)
+    WorkflowDatabaseManager.put_insert_abs_output = n_abs
+
     o_cr = TaskPool.compute_runahead
 
     def n_cr(self, force=False):
